@@ -107,6 +107,28 @@ pub fn oracle(c: &Corpus, seed: u64, tier: &str) -> Vec<Report> {
 }
 
 // ---------------------------------------------------------------- deep inputs in child processes
+/// `SqlVerif.Props.C02Parser.need` (lean/SqlVerif/Props/C02Parser.lean), re-implemented: the fuel (= call
+/// depth of the modelled parser) that the Lean theorems `pratt_never_out_of_fuel` /
+/// `query_never_out_of_fuel` prove sufficient for `n` non-whitespace tokens under recursion limit
+/// `limit`; it does not depend on the limit.
+pub fn need(n: u64, _limit: u64) -> u64 { 2 * n + 5 }
+
+/// Work tie for the modelled fragment: on the families below (every construct of them is inside the
+/// fragment of Model/Pratt.lean + Model/Query.lean, where the model makes a linear number of calls,
+/// `pratt_work_polynomial`) the real parser may use at most `WORK_K * need(n, limit)` cursor
+/// operations (hook `verif_hooks::steps`).  K = 16: a modelled call performs a bounded number of
+/// cursor operations (peeks and keyword probes of parse_statement / parse_select / parse_table_factor
+/// are the largest: measured maximum 16.4 operations per TOKEN on `SELECT 1; SELECT 1; ...`, i.e.
+/// 8.2 per unit of `need`); 16 leaves a factor 2 and is far below the quadratic budget of the
+/// general oracle.
+pub const WORK_K: u64 = 16;
+
+fn in_model_fragment(family: &str) -> bool {
+    matches!(family, "chain/plus" | "chain/and" | "chain/union" | "chain/cast" | "chain/is-null" | "chain/at-time-zone"
+        | "chain/join" | "chain/compound-ident" | "siblings/projection" | "siblings/statements" | "nest/parens"
+        | "nest/table-parens-derived")
+}
+
 struct Deep { name: &'static str, dialect: &'static str, build: fn(usize) -> String }
 
 fn deep_families() -> Vec<Deep> {
@@ -147,10 +169,17 @@ pub fn deep_child(args: &[String]) {
     let d = dialect(f.dialect);
     let o = Opts { unescape: true, trailing: None, limit };
     let ntok = 4 * n as u64 + 10;
+    // real token count for the work tie (tokenizing is not counted by the hook)
+    let real_ntok = match tokenize(d.as_ref(), true, &sql) {
+        G::Val(Ok(t)) => t.iter().filter(|t| !is_ws(&t.token)).count() as u64,
+        _ => ntok,
+    };
     verif_hooks::reset(200_000 + 2_000 * ntok);
     let res = parse(d.as_ref(), o, &sql);
     let steps = verif_hooks::steps();
     verif_hooks::reset(u64::MAX);
+    let bound = WORK_K * need(real_ntok, limit.unwrap_or(50) as u64);
+    let over = in_model_fragment(name) && steps > bound;
     match res {
         G::Val(Ok(v)) => {
             println!("parsed steps={steps}");
@@ -167,10 +196,11 @@ pub fn deep_child(args: &[String]) {
         G::Val(Err(e)) => println!("err {} steps={steps}", trunc(&e.to_string(), 80)),
         G::Panic(m) => println!("panic {m} steps={steps}"),
     }
+    if over { println!("work-bound-exceeded steps={steps} bound={bound} tokens={real_ntok}"); }
 }
 
 fn deep(tier: &str) -> Report {
-    let mut r = Report::new("C02", "oracle.deep", "long sibling chains (left-deep trees built by loops: `1 + 1 + ...`, UNION, `a[1][1]...`, `::INT::INT...`, IS NULL, JOIN, `.a.a`), flat sibling lists and nested constructs at sizes {10, 100, 1000, 20000, 100000} in child processes under a linear step budget: the child must exit normally after parse, print, debug-format, clone, compare and drop; non-trivial = distinct (family, size, stage reached)");
+    let mut r = Report::new("C02", "oracle.deep", "long sibling chains (left-deep trees built by loops: `1 + 1 + ...`, UNION, `a[1][1]...`, `::INT::INT...`, IS NULL, JOIN, `.a.a`), flat sibling lists and nested constructs at sizes {10, 100, 1000, 20000, 100000} in child processes under a linear step budget: the child must exit normally after parse, print, debug-format, clone, compare and drop; on the families inside the modelled fragment (plus/and/union/cast/is-null/at-time-zone/join/compound-ident chains, projection and statement lists, nested parentheses and derived tables) additionally real cursor steps <= 16 * need(tokens, limit) with need = 2n+5 of Props/C02Parser.lean (signature work-bound/<family>); non-trivial = distinct (family, size, stage reached)");
     r.exhaustive = true;
     let fams = deep_families();
     let sizes: Vec<usize> = if tier == "thorough" { vec![10, 30, 100, 300, 1000, 5000, 20000, 100_000, 300_000] } else { vec![10, 100, 1000, 20000, 100_000] };
@@ -219,6 +249,8 @@ fn deep(tier: &str) -> Report {
             r.fail(format!("stack-overflow/{}/{}", f.name, what), f.dialect, o, &input, out.clone());
         } else if out.starts_with("abnormal") {
             r.fail(format!("abnormal-exit/{}", f.name), f.dialect, o, &input, out.clone());
+        } else if out.contains("work-bound-exceeded") {
+            r.fail(format!("work-bound/{}", f.name), f.dialect, o, &input, out.clone());
         } else if out.contains("panic") {
             let sig = if out.contains("step budget") { format!("work-explosion/{}", f.name) } else { format!("panic/{}", f.name) };
             r.fail(sig, f.dialect, o, &input, out.clone());
